@@ -113,7 +113,8 @@ CHECKS.update({
                      'systems in one query; (b) symbolic execution of the server construction path: configured item limit / connection limit / store / policy are '
                      'the ones that reach the codec, the semaphore and every listener.',
                 design='5 C20', note=NOTE_COMMON + ' Not decidable here and not claimed: equivalence of tokio schedulers and worker counts, SO_REUSEPORT '
-                                                   'distribution, ports, real-time ticking (no code of this crate to encode).'),
+                                                   'distribution, ports (no code of this crate to encode). The clock task SystemTimer::run is encoded over a model of tokio\'s interval '
+                                                   '(documented Burst/Delay/Skip semantics, time symbolic); that tokio\'s real interval follows its documentation is trusted and exercised natively.'),
 })
 NA = {
 }
